@@ -66,7 +66,22 @@ type worker struct {
 func c13Run(t *testing.T, s *sim.Scn) *sim.Outcome {
 	o := sim.NewOutcome()
 	before := raceLogSize()
-	if p := sim.Bubble(t, func() { c13Body(t, s, o) }); p != nil {
+	// a wall-clock budget per scenario (they take about a second): a goroutine of the node that spins without ever
+	// waiting keeps the bubble from becoming idle, the simulated clock stops and the scenario would never end
+	p, dump := sim.BubbleWall(t, func() { c13Body(t, s, o) }, 60*time.Second)
+	if p == sim.BubbleStalled {
+		o.V = nil
+		if site := spinSite(dump); site != "" {
+			o.Fail("C13/activity-spins-without-waiting", "C13/activity-spins-without-waiting/"+site, -1,
+				fmt.Sprintf("the simulated clock stopped because a goroutine of the node keeps running without waiting for anything (for more than a minute of real time): %s", site),
+				"every activity waits for its next event or returns - in particular when the node is asked to stop")
+		} else {
+			o.Count("inconclusive:simulated-clock-stalled", 1)
+			o.NonTrivial = false
+		}
+		return o
+	}
+	if p != nil {
 		msg := fmt.Sprint(p)
 		if msg == sim.BubbleAborted {
 			if raceLogSize() > before && strings.Contains(raceLogText(), "DATA RACE") {
@@ -85,6 +100,27 @@ func c13Run(t *testing.T, s *sim.Scn) *sim.Outcome {
 		o.Fail("C13/data-race", "C13/data-race/"+raceSite(raceLogText()), -1, raceLogText(), "no data race between the background activities")
 	}
 	return o
+}
+
+// spinSite: the function of the repository's block package in which a goroutine of the stalled bubble is running
+// or runnable ("" if there is none: then the stall is not attributed to the code under test).
+func spinSite(dump string) string {
+	for _, blk := range strings.Split(dump, "\n\n") {
+		head := strings.SplitN(blk, "\n", 2)[0]
+		if !strings.Contains(head, "synctest bubble") || !(strings.Contains(head, "[running") || strings.Contains(head, "[runnable")) {
+			continue
+		}
+		for _, l := range strings.Split(blk, "\n") {
+			if strings.HasPrefix(l, "github.com/evstack/ev-node/block.") {
+				f := strings.TrimPrefix(l, "github.com/evstack/ev-node/")
+				if i := strings.LastIndex(f, "("); i > 0 {
+					f = f[:i]
+				}
+				return strings.NewReplacer("(", "", ")", "", "*", "").Replace(f)
+			}
+		}
+	}
+	return ""
 }
 
 // raceSite extracts the first repo frame of a race report for a stable signature.
